@@ -149,7 +149,7 @@ theorem pkgOf_same' {w : World} {x y : Strm} (h : (x.pkg == y.pkg) = true) : w.p
 /-- **Splitting yields `split*feed` and `feed - split*feed`.**  Scalar or per-chemical split, single-
 or multi-phase feed and outlets, outlets on other packages, the feed itself as one of the outlets:
 if `split_to` returns (and the two outlets are different streams) every chemical is divided exactly so. -/
-theorem split_values {w w' : World} {f a b : Nat} {sp : Split} (h : split w f a b sp = .ok w')
+theorem split_values {w w' : World} {f a b : Nat} {sp : Split} {eb : Bool} (h : split w f a b sp eb = .ok w')
     (hab : a ≠ b) (c : Nat) :
     w'.amount a c = w.amount f c * splitAt w f sp c ∧
     w'.amount b c = w.amount f c - w.amount f c * splitAt w f sp c := by
@@ -203,7 +203,7 @@ theorem split_values {w w' : World} {f a b : Nat} {sp : Split} (h : split w f a 
       rw [pkgOf_eq_of_pkg hpb, hkb, rowKey_splitBot, rowKey_total]
 
 /-- the two outlets together hold the feed -/
-theorem split_sum {w w' : World} {f a b : Nat} {sp : Split} (h : split w f a b sp = .ok w')
+theorem split_sum {w w' : World} {f a b : Nat} {sp : Split} {eb : Bool} (h : split w f a b sp eb = .ok w')
     (hab : a ≠ b) (c : Nat) : w'.amount a c + w'.amount b c = w.amount f c := by
   obtain ⟨h1, h2⟩ := split_values h hab c
   rw [h1, h2]; ring
@@ -552,27 +552,40 @@ theorem contains_filterMap_pos {P Q : List Nat} {K : List Nat} {kp : Nat} :
     (K.filterMap (fun k => pos P (Q.getD k 0))).contains kp = true ↔ ∃ k ∈ K, pos P (Q.getD k 0) = some kp := by
   simp [List.mem_filterMap]
 
-/-- **Copy with removal neither duplicates nor loses material.**  `d.copy_flow(s, IDs, remove=True,
-exclude=…)` onto a single-phase `d ≠ s`: every chemical is either moved entirely (the destination now
-holds what the source held, the source holds none) or left alone in both streams. -/
-theorem copy_remove_moves {w w' : World} {d s : Nat} {ids : IDs} {ex : Bool} {ss : Strm}
-    (h : copySingle w d s ids true ex = .ok w') (hds : d ≠ s)
+/-- does `copy_flow` actually move chemical `c` (selected, and kept by the other-package filter) -/
+def keptHas (P Q : List Nat) (same : Bool) (t : Row) (sel : Sel) (c : Nat) : Bool :=
+  match sel with
+  | .nothing => false
+  | .everything => true
+  | .some K => match pos Q c with
+    | some k => (keptSel P Q same t K).contains k
+    | none => false
+
+theorem copySingle_kept {w w' : World} {d s : Nat} {ids : IDs} {ex : Bool} {d0 ss : Strm}
+    (h : copySingle w d s ids true ex = .ok w') (hds : d ≠ s) (hd : w.strms[d]? = some d0)
     (hs : w.strms[s]? = some ss) (hQ : (w.pkgOf ss).Nodup) (c : Nat) :
-    (w'.amount d c = w.amount s c ∧ w'.amount s c = 0) ∨
-    (w'.amount d c = w.amount d c ∧ w'.amount s c = w.amount s c) := by
+    ∃ sel, selection (w.pkgOf ss) ids ex = .ok sel ∧
+      ((keptHas (w.pkgOf d0) (w.pkgOf ss) (d0.pkg == ss.pkg) (ss.total (w.pkgOf ss).length) sel c = true ∧
+        w'.amount d c = w.amount s c ∧ w'.amount s c = 0) ∨
+       (keptHas (w.pkgOf d0) (w.pkgOf ss) (d0.pkg == ss.pkg) (ss.total (w.pkgOf ss).length) sel c = false ∧
+        w'.amount d c = w.amount d c ∧ w'.amount s c = w.amount s c)) := by
   unfold copySingle at h
-  obtain ⟨d0, hd0, h⟩ := bind_ok.mp h
-  obtain ⟨s0, hs0, h⟩ := bind_ok.mp h
-  have hd := get?_ok.mp hd0
-  have hs' := get?_ok.mp hs0
-  rw [hs] at hs'; cases hs'
-  obtain ⟨sel, hsel, h⟩ := bind_ok.mp h
+  rw [get?_ok.mpr hd, get?_ok.mpr hs] at h
+  simp only [bind, Except.bind] at h
+  have hex : ∃ sel, selection (w.pkgOf ss) ids ex = .ok sel := by
+    cases hq : selection (w.pkgOf ss) ids ex with
+    | error e => rw [hq] at h; cases h
+    | ok sel => exact ⟨sel, rfl⟩
+  obtain ⟨sel, hsel⟩ := hex
+  rw [hsel] at h
+  simp only [] at h
+  refine ⟨sel, hsel, ?_⟩
   have hsame : (d0.pkg == ss.pkg) = true → w.pkgOf d0 = w.pkgOf ss := fun e => pkgOf_same e
   rw [amount_of_get hs, amount_of_get hd]
   cases sel with
   | nothing =>
     simp only [] at h; cases h
-    right; exact ⟨amount_of_get hd c, amount_of_get hs c⟩
+    right; exact ⟨rfl, amount_of_get hd c, amount_of_get hs c⟩
   | everything =>
     simp only [] at h
     split at h
@@ -586,6 +599,7 @@ theorem copy_remove_moves {w w' : World} {d s : Nat} {ids : IDs} {ex : Bool} {ss
       rw [getElem?_setStrm_other hds] at hs1'
       rw [hs] at hs1'; cases hs1'
       left
+      refine ⟨rfl, ?_⟩
       constructor
       · rw [amount_setStrm_other (Ne.symm hds), amount_setStrm_same hd, amount_eq_key, amount_eq_key]
         have e : w.pkgOf { d0 with ph := [(d0.phase, tab (w.pkgOf d0).length (conv (w.pkgOf d0) (w.pkgOf ss) (d0.pkg == ss.pkg) (ss.total (w.pkgOf ss).length)).get)] } = w.pkgOf d0 := rfl
@@ -605,6 +619,7 @@ theorem copy_remove_moves {w w' : World} {d s : Nat} {ids : IDs} {ex : Bool} {ss
       rw [hs] at hs1'; cases hs1'
       have hKlt := selection_lt hsel
       -- abbreviations
+      simp only [keptHas]
       generalize hK' : keptSel (w.pkgOf d0) (w.pkgOf ss) (d0.pkg == ss.pkg) (ss.total (w.pkgOf ss).length) K = K' at hbad ⊢
       have hK'lt : ∀ k ∈ K', k < (w.pkgOf ss).length := by
         intro k hk
@@ -651,6 +666,7 @@ theorem copy_remove_moves {w w' : World} {d s : Nat} {ids : IDs} {ex : Bool} {ss
       | none =>
         -- the source does not know `c`: nothing to move
         right
+        refine ⟨rfl, ?_⟩
         constructor
         · cases hPc : pos (w.pkgOf d0) c with
           | none => unfold rowKey key; rw [hPc]
@@ -685,6 +701,7 @@ theorem copy_remove_moves {w w' : World} {d s : Nat} {ids : IDs} {ex : Bool} {ss
         cases hin : K'.contains k with
         | true =>
           left
+          refine ⟨hin, ?_⟩
           refine ⟨?_, by rw [hsrc true (fun j hj => by rw [hQc] at hj; cases hj; exact hin)]; simp⟩
           rw [htot]
           cases hPc : pos (w.pkgOf d0) c with
@@ -723,6 +740,7 @@ theorem copy_remove_moves {w w' : World} {d s : Nat} {ids : IDs} {ex : Bool} {ss
               rw [get_keepAt hk, hin]; rfl
         | false =>
           right
+          refine ⟨hin, ?_⟩
           refine ⟨?_, by rw [hsrc false (fun j hj => by rw [hQc] at hj; cases hj; exact hin)]; simp⟩
           cases hPc : pos (w.pkgOf d0) c with
           | none => unfold rowKey key; rw [hPc]
@@ -752,6 +770,237 @@ theorem copy_remove_moves {w w' : World} {d s : Nat} {ids : IDs} {ex : Bool} {ss
                 have : K'.contains k = true := by simpa using hk2
                 rw [hin] at this; cases this
             · rfl
+
+/-- **Copy with removal neither duplicates nor loses material.**  (Which chemicals move: `copy_remove_selected`.) -/
+theorem copy_remove_moves {w w' : World} {d s : Nat} {ids : IDs} {ex : Bool} {ss : Strm}
+    (h : copySingle w d s ids true ex = .ok w') (hds : d ≠ s)
+    (hs : w.strms[s]? = some ss) (hQ : (w.pkgOf ss).Nodup) (c : Nat) :
+    (w'.amount d c = w.amount s c ∧ w'.amount s c = 0) ∨
+    (w'.amount d c = w.amount d c ∧ w'.amount s c = w.amount s c) := by
+  have hd : ∃ d0, w.strms[d]? = some d0 := by
+    unfold copySingle at h
+    obtain ⟨d0, hd0, _⟩ := bind_ok.mp h
+    exact ⟨d0, get?_ok.mp hd0⟩
+  obtain ⟨d0, hd⟩ := hd
+  obtain ⟨_, _, hk⟩ := copySingle_kept h hds hd hs hQ c
+  rcases hk with ⟨_, h1⟩ | ⟨_, h2⟩
+  · exact Or.inl h1
+  · exact Or.inr h2
+
+/-! ### which chemicals `copy_flow` moves -/
+
+/-- the chemicals the caller asks for: all (`IDs = ...`), the named ones, or — with `exclude` — the chemicals of the
+source that are not named -/
+def wanted (Q : List Nat) (ids : IDs) (ex : Bool) (c : Nat) : Bool :=
+  match ids with
+  | .all => !ex
+  | .one c0 => (pos Q c).isSome && ((c == c0) != ex)
+  | .many cs => (pos Q c).isSome && (cs.contains c != ex)
+
+/-- chemical `c` is among the selected positions -/
+def selHas (Q : List Nat) (sel : Sel) (c : Nat) : Bool :=
+  match sel with
+  | .nothing => false
+  | .everything => true
+  | .some K => match pos Q c with
+    | some k => K.contains k
+    | none => false
+
+theorem contains_complement (m : Nat) (bad : List Nat) (k : Nat) :
+    (complement m bad).contains k = (decide (k < m) && !bad.contains k) := by
+  unfold complement
+  rw [Bool.eq_iff_iff]
+  simp [List.mem_filter]
+
+theorem pos_inj {Q : List Nat} {c c' k : Nat} (h : pos Q c = some k) (h' : pos Q c' = some k) : c = c' := by
+  rw [← pos_getD h, ← pos_getD h']
+
+theorem positions_mem {Q cs K : List Nat} (h : positions Q cs = .ok K) (k : Nat) :
+    k ∈ K ↔ ∃ c' ∈ cs, pos Q c' = some k := by
+  induction cs generalizing K with
+  | nil => simp [positions] at h; subst h; simp
+  | cons c0 cs ih =>
+    unfold positions at h
+    cases hc : pos Q c0 with
+    | none => simp [hc, bind, Except.bind] at h
+    | some k0 =>
+      simp only [hc] at h
+      obtain ⟨ks, hks, h⟩ := bind_ok.mp h
+      cases h
+      simp only [List.mem_cons, ih hks]
+      constructor
+      · rintro (rfl | ⟨c', hc', hk⟩)
+        · exact ⟨c0, Or.inl rfl, hc⟩
+        · exact ⟨c', Or.inr hc', hk⟩
+      · rintro ⟨c', (rfl | hc'), hk⟩
+        · left; rw [hc] at hk; cases hk; rfl
+        · right; exact ⟨c', hc', hk⟩
+
+/-- the selection computed by the code is the set of chemicals the caller asks for -/
+theorem selHas_eq_wanted {Q : List Nat} {ids : IDs} {ex : Bool} {sel : Sel}
+    (h : selection Q ids ex = .ok sel) (c : Nat) : selHas Q sel c = wanted Q ids ex c := by
+  unfold selection at h
+  unfold wanted
+  cases ids with
+  | all =>
+    simp only [] at h ⊢
+    split at h <;> cases h <;> simp_all [selHas]
+  | one c0 =>
+    simp only [] at h ⊢
+    cases hQc : pos Q c with
+    | none =>
+      have : selHas Q sel c = false := by
+        unfold selHas; cases sel <;> simp_all
+        all_goals (cases hc0 : pos Q c0 <;> simp_all <;> (split at h <;> simp_all))
+      simp [this]
+    | some k =>
+      cases hc0 : pos Q c0 with
+      | none =>
+        rw [hc0] at h; simp only [] at h
+        split at h
+        · rename_i hex
+          cases h
+          have hne : (c == c0) = false := by
+            simp only [beq_eq_false_iff_ne, ne_eq]
+            intro e; subst e; rw [hQc] at hc0; cases hc0
+          simp only [selHas, hQc]
+          rw [contains_complement]
+          simp [pos_lt hQc, hne, hex]
+        · cases h
+      | some k0 =>
+        rw [hc0] at h; simp only [] at h
+        have hkk : (k == k0) = (c == c0) := by
+          rw [Bool.eq_iff_iff]; simp only [beq_iff_eq]
+          constructor
+          · intro e; subst e; exact pos_inj hQc hc0
+          · intro e; subst e; rw [hQc] at hc0; cases hc0; rfl
+        split at h
+        · rename_i hex
+          cases h
+          simp only [selHas, hQc, contains_complement, pos_lt hQc, decide_true, Bool.true_and, hex,
+            Option.isSome_some, List.contains_cons, List.contains_nil, Bool.or_false, hkk]
+          cases (c == c0) <;> rfl
+        · rename_i hex
+          simp only [Bool.not_eq_true] at hex
+          cases h
+          simp only [selHas, hQc, hex, Option.isSome_some, Bool.true_and, List.contains_cons, List.contains_nil,
+            Bool.or_false, hkk]
+          cases (c == c0) <;> rfl
+  | many cs =>
+    simp only [] at h ⊢
+    cases hQc : pos Q c with
+    | none =>
+      have : selHas Q sel c = false := by
+        unfold selHas
+        cases sel with
+        | nothing => rfl
+        | everything =>
+          split at h
+          · cases h
+          · obtain ⟨K, _, h⟩ := bind_ok.mp h; cases h
+        | some K => simp [hQc]
+      simp [this]
+    | some k =>
+      have hmem : (∃ c' ∈ cs, pos Q c' = some k) ↔ c ∈ cs := by
+        constructor
+        · rintro ⟨c', hc', hk⟩; rw [pos_inj hQc hk]; exact hc'
+        · intro hc; exact ⟨c, hc, hQc⟩
+      split at h
+      · rename_i hex
+        cases h
+        have : (cs.filterMap (pos Q)).contains k = cs.contains c := by
+          rw [Bool.eq_iff_iff]
+          simp only [List.contains_iff_mem, List.mem_filterMap]
+          exact hmem
+        simp only [selHas, hQc, contains_complement, pos_lt hQc, decide_true, Bool.true_and, this, hex,
+          Option.isSome_some]
+        cases cs.contains c <;> rfl
+      · rename_i hex
+        simp only [Bool.not_eq_true] at hex
+        obtain ⟨K, hK, h⟩ := bind_ok.mp h
+        cases h
+        have : K.contains k = cs.contains c := by
+          rw [Bool.eq_iff_iff]
+          simp only [List.contains_iff_mem, positions_mem hK k]
+          exact hmem
+        simp only [selHas, hQc, this, hex, Option.isSome_some, Bool.true_and]
+        cases cs.contains c <;> rfl
+
+/-- **Which chemicals copy-with-removal moves.**  `d.copy_flow(s, IDs, remove=True, exclude=…)` onto a single-phase
+`d ≠ s`: every chemical the caller asks for (`wanted`) ends up in the destination and leaves the source; every other
+chemical stays where it was in both streams. -/
+theorem copy_remove_selected {w w' : World} {d s : Nat} {ids : IDs} {ex : Bool} {ss : Strm}
+    (h : copySingle w d s ids true ex = .ok w') (hds : d ≠ s)
+    (hs : w.strms[s]? = some ss) (hQ : (w.pkgOf ss).Nodup) (c : Nat) :
+    if wanted (w.pkgOf ss) ids ex c then w'.amount d c = w.amount s c ∧ w'.amount s c = 0
+    else w'.amount d c = w.amount d c ∧ w'.amount s c = w.amount s c := by
+  have hd : ∃ d0, w.strms[d]? = some d0 := by
+    unfold copySingle at h
+    obtain ⟨d0, hd0, _⟩ := bind_ok.mp h
+    exact ⟨d0, get?_ok.mp hd0⟩
+  obtain ⟨d0, hd⟩ := hd
+  obtain ⟨sel, hsel, hk⟩ := copySingle_kept h hds hd hs hQ c
+  rw [← selHas_eq_wanted hsel c]
+  rcases hk with ⟨hkept, hA⟩ | ⟨hkept, hB⟩
+  · -- moved: then it was selected
+    have : selHas (w.pkgOf ss) sel c = true := by
+      unfold keptHas at hkept; unfold selHas
+      cases sel with
+      | nothing => cases hkept
+      | everything => rfl
+      | some K =>
+        simp only [] at hkept ⊢
+        cases hQc : pos (w.pkgOf ss) c with
+        | none => rw [hQc] at hkept; cases hkept
+        | some k =>
+          rw [hQc] at hkept
+          simp only [] at hkept ⊢
+          unfold keptSel at hkept
+          split at hkept
+          · exact hkept
+          · have := List.mem_filter.mp (List.contains_iff_mem.mp hkept)
+            exact List.contains_iff_mem.mpr this.1
+    rw [this]; exact hA
+  · cases hsh : selHas (w.pkgOf ss) sel c with
+    | false => simpa using hB
+    | true =>
+      -- selected but dropped by the other-package filter: nothing flows and the destination does not know `c`
+      simp only [if_true]
+      unfold selHas at hsh; unfold keptHas at hkept
+      cases sel with
+      | nothing => cases hsh
+      | everything => cases hkept
+      | some K =>
+        simp only [] at hsh hkept
+        cases hQc : pos (w.pkgOf ss) c with
+        | none => rw [hQc] at hsh; cases hsh
+        | some k =>
+          rw [hQc] at hsh hkept
+          simp only [] at hsh hkept
+          unfold keptSel at hkept
+          split at hkept
+          · rw [hsh] at hkept; cases hkept
+          · have hnotmem : k ∉ K.filter (fun k => (ss.total (w.pkgOf ss).length).get k != 0 ||
+                (pos (w.pkgOf d0) ((w.pkgOf ss).getD k 0)).isSome) := by
+              intro hm
+              rw [List.contains_iff_mem.mpr hm] at hkept; cases hkept
+            have hkK : k ∈ K := List.contains_iff_mem.mp hsh
+            have hz : (ss.total (w.pkgOf ss).length).get k = 0 ∧ pos (w.pkgOf d0) c = none := by
+              have h2 : ¬ (((ss.total (w.pkgOf ss).length).get k != 0 ||
+                  (pos (w.pkgOf d0) ((w.pkgOf ss).getD k 0)).isSome) = true) :=
+                fun e => hnotmem (List.mem_filter.mpr ⟨hkK, e⟩)
+              simp only [Bool.or_eq_true, bne_iff_ne, ne_eq, not_or, Decidable.not_not, Bool.not_eq_true,
+                Option.isSome_eq_false_iff, Option.isNone_iff_eq_none] at h2
+              rw [pos_getD hQc] at h2
+              exact h2
+            have hs0 : w.amount s c = 0 := by
+              rw [amount_of_get hs, amount_eq_key]; unfold key; rw [hQc]
+              simp only []
+              rw [← get_total (pos_lt hQc)]; exact hz.1
+            have hd0 : w.amount d c = 0 := by
+              rw [amount_of_get hd, amount_eq_key]; unfold key; rw [hz.2]
+            rw [hB.1, hB.2, hs0, hd0]
+            exact ⟨rfl, rfl⟩
 
 /-- cut and paste (`IDs = ...`, `remove=True`): everything the source held is now in the destination -/
 theorem copy_all_moves {w w' : World} {d s : Nat} (h : copySingle w d s .all true false = .ok w')
@@ -1161,6 +1410,308 @@ theorem copy_multi_remove_moves {w w' : World} {d s : Nat} {ids : IDs} {ex : Boo
           rw [a1, a2, get_total (pos_lt hP)]
           cases (C.has k != ex) <;> simp
 
+/-- is chemical `c` named by the IDs argument -/
+def idsHas (ids : IDs) (c : Nat) : Bool :=
+  match ids with
+  | .all => true
+  | .one c0 => c == c0
+  | .many cs => cs.contains c
+
+theorem colsOf_has {P : List Nat} {ids : IDs} {C : Cols} (h : colsOf P ids = .ok C) {c k : Nat}
+    (hP : pos P c = some k) : C.has k = idsHas ids c := by
+  unfold colsOf at h
+  cases ids with
+  | all => simp only [] at h; cases h; rfl
+  | one c0 =>
+    simp only [] at h
+    cases hc0 : pos P c0 with
+    | none => rw [hc0] at h; cases h
+    | some k0 =>
+      rw [hc0] at h; cases h
+      simp only [Cols.has, idsHas]
+      rw [Bool.eq_iff_iff]; simp only [beq_iff_eq]
+      constructor
+      · intro e; subst e; exact pos_inj hP hc0
+      · intro e; subst e; rw [hP] at hc0; cases hc0; rfl
+  | many cs =>
+    simp only [] at h
+    cases hK : positions P cs with
+    | error e => rw [hK] at h; cases h
+    | ok K =>
+      rw [hK] at h; cases h
+      simp only [Cols.has, idsHas]
+      rw [Bool.eq_iff_iff]
+      simp only [List.contains_iff_mem, positions_mem hK k]
+      constructor
+      · rintro ⟨c', hc', hk⟩; rw [pos_inj hP hk]; exact hc'
+      · intro hc; exact ⟨c, hc, hP⟩
+
+/-- **Which chemicals copy-with-removal onto an empty multi-phase destination moves** (`phase = ...`): the
+chemicals named by `IDs` (with `exclude`: the others) end up in the destination and leave the source; the rest
+stays in the source. -/
+theorem copy_multi_remove_selected {w w' : World} {d s : Nat} {ids : IDs} {ex : Bool}
+    {sd ss : Strm} (h : copyMulti w d s none ids true ex = .ok w') (hds : d ≠ s)
+    (hd : w.strms[d]? = some sd) (hs : w.strms[s]? = some ss) (he : sd.isEmpty = true) (c : Nat) :
+    if (pos (w.pkgOf sd) c).isSome && (idsHas ids c != ex) then w'.amount d c = w.amount s c ∧ w'.amount s c = 0
+    else w'.amount d c = 0 ∧ w'.amount s c = w.amount s c := by
+  unfold copyMulti at h
+  rw [get?_ok.mpr hd, get?_ok.mpr hs] at h
+  simp only [bind, Except.bind, phaseOf] at h
+  split at h
+  · cases h
+  · rename_i hg
+    have hPQ := pkgOf_of_guard hg
+    split at h
+    · cases h
+    · rename_i C hC
+      split at h
+      · cases h
+      · rename_i r hr
+        obtain ⟨h1, h2⟩ := copyFinish_amounts h hds hd hs c
+        rw [h1, h2, amount_of_get hs, amount_eq_key, ← hPQ]
+        unfold key
+        cases hP : pos (w.pkgOf sd) c with
+        | none => simp
+        | some k =>
+          simp only [Option.isSome_some, Bool.true_and]
+          obtain ⟨a1, a2⟩ := copyRows_moves (pos_lt hP) hr he
+          rw [a1, a2, get_total (pos_lt hP), colsOf_has hC hP]
+          cases (idsHas ids c != ex) <;> simp
+
+/-- a single-phase source without `exclude`: the destination is emptied first (`data[:] = 0.`), so whatever it held
+is discarded; column `k` then holds the source's entry when selected -/
+theorem copyRows_single_overwrites {n k : Nat} (hk : k < n) {C : Cols} {rm : Bool} {d s : Strm}
+    {r : PhRows × Option PhRows} (h : copyRows n C none rm false d s = .ok r) (hs : s.multi = false) :
+    colsum r.1 k = if C.has k then (s.total n).get k else 0 := by
+  unfold copyRows at h
+  simp only [hs, Bool.false_eq_true, if_false, selK, if_true] at h
+  split at h
+  · cases h
+  · rename_i q hq
+    cases h
+    have hz0 : ∀ pr ∈ d.ph.map (fun pr => (pr.1, vzero n)), pr.2.get k = 0 := by
+      intro pr hpr
+      obtain ⟨x, _, rfl⟩ := List.mem_map.mp hpr
+      exact get_vzero n k
+    have hq0 : hasPh (d.ph.map (fun pr => (pr.1, vzero n))) q = true := by
+      rw [hasPh_map_snd]; exact resolve_hasPh hq
+    rw [colsum_modAt q _ (if C.has k = true then (s.total n).get k else 0) hq0 hz0]
+    intro r0 _
+    cases hC : C.has k <;> simp [hC, get_putCols hk, get_vzero]
+
+/-- **What happens to the destination's own content** when a single-phase stream is copied onto a multi-phase
+destination without `exclude`: it is discarded (also in the other phases); afterwards the destination holds exactly
+the selected chemicals of the source. -/
+theorem copy_multi_single_source_overwrites {w w' : World} {d s : Nat} {ids : IDs} {rm : Bool} {sd ss : Strm}
+    (h : copyMulti w d s none ids rm false = .ok w') (hds : d ≠ s)
+    (hd : w.strms[d]? = some sd) (hs : w.strms[s]? = some ss) (hsingle : ss.multi = false) (c : Nat) :
+    w'.amount d c = if (pos (w.pkgOf sd) c).isSome && idsHas ids c then w.amount s c else 0 := by
+  unfold copyMulti at h
+  rw [get?_ok.mpr hd, get?_ok.mpr hs] at h
+  simp only [bind, Except.bind, phaseOf] at h
+  split at h
+  · cases h
+  · rename_i hg
+    have hPQ := pkgOf_of_guard hg
+    split at h
+    · cases h
+    · rename_i C hC
+      split at h
+      · cases h
+      · rename_i r hr
+        obtain ⟨h1, _⟩ := copyFinish_amounts h hds hd hs c
+        rw [h1, amount_of_get hs, amount_eq_key, ← hPQ]
+        unfold key
+        cases hP : pos (w.pkgOf sd) c with
+        | none => simp
+        | some k =>
+          simp only [Option.isSome_some, Bool.true_and]
+          rw [copyRows_single_overwrites (pos_lt hP) hr hsingle, get_total (pos_lt hP), colsOf_has hC hP]
+
+/-- the enthalpy setter's phase flip leaves every flow alone -/
+theorem flipPhase_amount (w : World) (i : Nat) (p : Char) (j c : Nat) : (flipPhase w i p).amount j c = w.amount j c := by
+  unfold flipPhase
+  cases hs : w.strms[i]? with
+  | none => rfl
+  | some s =>
+    simp only []
+    split
+    · by_cases hij : i = j
+      · subst hij
+        rw [amount_setStrm_same hs, amount_of_get hs, amount_eq_key, amount_eq_key]
+        cases hph : s.ph with
+        | nil => rfl
+        | cons x rest =>
+          obtain ⟨q, r⟩ := x
+          show key (w.pkgOf s) ((p, r) :: rest) c = key (w.pkgOf s) ((q, r) :: rest) c
+          rw [key_cons, key_cons]
+      · exact amount_setStrm_other hij _ c
+    · rfl
+
+/-! ### mixing with the energy balance on: `copy_like` for exactly one non-empty inlet -/
+
+/-- the five phase letters -/
+def validPhase (p : Char) : Bool := p == 's' || p == 'l' || p == 'g' || p == 'S' || p == 'L'
+
+/-- every phase of the stream is one of `s l g S L` -/
+def ValidPh (s : Strm) : Prop := ∀ pr ∈ s.ph, validPhase pr.1 = true
+
+theorem validPhase_cases {p : Char} (h : validPhase p = true) : p = 's' ∨ p = 'l' ∨ p = 'g' ∨ p = 'S' ∨ p = 'L' := by
+  unfold validPhase at h
+  simp only [Bool.or_eq_true, beq_iff_eq] at h
+  tauto
+
+/-- two phase letters of the same class are equal or each other's other case -/
+theorem lower_eq_cases {a b : Char} (ha : validPhase a = true) (hb : validPhase b = true)
+    (h : a.toLower = b.toLower) : a = b ∨ swapc b = a := by
+  rcases validPhase_cases ha with rfl | rfl | rfl | rfl | rfl <;>
+    rcases validPhase_cases hb with rfl | rfl | rfl | rfl | rfl <;> revert h <;> decide
+
+theorem hasPh_of_mem {l : PhRows} {pr : Char × Row} (h : pr ∈ l) : hasPh l pr.1 = true := by
+  unfold hasPh; exact List.any_eq_true.mpr ⟨pr, h, by simp⟩
+
+theorem hasPh_iff_mem_keys {l : PhRows} {p : Char} : hasPh l p = true ↔ p ∈ l.map (·.1) := by
+  unfold hasPh
+  simp [List.any_eq_true]
+
+/-- equal lower-case phase strings: every phase of `x` resolves among the phases of `r` -/
+theorem resolve_of_compat {r x : PhRows} (hr : ∀ pr ∈ r, validPhase pr.1 = true) (hx : ∀ pr ∈ x, validPhase pr.1 = true)
+    (h : compat r = compat x) : ∀ pr ∈ x, (resolve r pr.1).isSome = true := by
+  intro pr hpr
+  have hmem : pr.1.toLower ∈ compat x := by
+    unfold compat; exact List.mem_map.mpr ⟨pr, hpr, rfl⟩
+  rw [← h] at hmem
+  obtain ⟨qr, hqr, hq⟩ := List.mem_map.mp hmem
+  rcases lower_eq_cases (hr qr hqr) (hx pr hpr) hq with e | e
+  · rw [← e, resolve_of_hasPh (hasPh_of_mem hqr)]; rfl
+  · unfold resolve
+    by_cases h1 : hasPh r pr.1 = true
+    · simp [h1]
+    · have h2 : hasPh r (swapc pr.1) = true := by rw [e]; exact hasPh_of_mem hqr
+      simp [h1, h2]
+
+theorem key_map_conv {P Q : List Nat} {same : Bool} (hs : same = true → P = Q) {l : PhRows}
+    (hb : l.any (fun pr => convBad P Q same pr.2) = false) (c : Nat) :
+    key P (l.map (fun pr => (pr.1, tab P.length (conv P Q same pr.2).get))) c = key Q l c := by
+  rw [key_eq_rsum, key_eq_rsum, List.map_map]
+  apply rsum_map_congr
+  intro pr hpr
+  have := List.any_eq_false.mp hb pr hpr
+  simp only [Function.comp]
+  rw [rowKey_tab_get, rowKey_conv hs (by simpa using this)]
+
+theorem key_pour {P : List Nat} (base cs : PhRows) (hres : ∀ pr ∈ cs, (resolve base pr.1).isSome = true) (c : Nat) :
+    key P (pour P.length base cs) c = key P base c + key P cs c := by
+  unfold key
+  cases hP : pos P c with
+  | none => simp
+  | some k => simp only []; exact colsum_pour (pos_lt hP) base cs hres
+
+/-- `copy_like` hands over exactly what the source holds -/
+theorem copyLike_key {P Q : List Nat} {same : Bool} (hs : same = true → P = Q) {r x r' : Strm}
+    (h : copyLike P Q same r x = .ok r') (hvr : ValidPh r) (hvx : ValidPh x) (c : Nat) :
+    r'.pkg = r.pkg ∧ key P r'.ph c = key Q x.ph c := by
+  unfold copyLike at h
+  simp only [] at h
+  split at h
+  · cases h
+  · rename_i hbad
+    simp only [Bool.not_eq_true] at hbad
+    split at h
+    · cases h
+      exact ⟨rfl, key_map_conv hs hbad c⟩
+    · cases h
+      refine ⟨rfl, ?_⟩
+      simp only []
+      rw [key_pour, key_map_conv hs hbad c]
+      · have : key P (List.map (fun pr => (pr.1, vzero P.length))
+            (if (if x.multi = true then
+                  (List.map (fun x => x.1) r.ph == List.map (fun x => x.1) x.ph || compat r.ph == compat x.ph)
+                else x.ph.all fun pr => (resolve r.ph pr.1).isSome) = true
+              then r.ph else expand P.length r.ph (List.map (fun x => x.1) x.ph))) c = 0 := by
+          unfold key; cases pos P c with
+          | none => rfl
+          | some k => exact colsum_map_zero _ _ k
+        rw [this]; ring
+      · intro pr hpr
+        obtain ⟨px, hpx, rfl⟩ := List.mem_map.mp hpr
+        simp only []
+        rw [resolve_congr (hasPh_map_snd _ (fun _ => vzero P.length)) px.1]
+        have hexp : (resolve (expand P.length r.ph (x.ph.map (·.1))) px.1).isSome = true := by
+          rw [resolve_of_hasPh (hasPh_expand_mem _ _ _ _ (List.mem_map_of_mem hpx))]; rfl
+        by_cases hm : x.multi = true
+        · simp only [hm, if_true]
+          by_cases hk : (r.ph.map (·.1) == x.ph.map (·.1) || compat r.ph == compat x.ph) = true
+          · simp only [hk, if_true]
+            simp only [Bool.or_eq_true, beq_iff_eq] at hk
+            rcases hk with hk | hk
+            · have : px.1 ∈ r.ph.map (·.1) := by rw [hk]; exact List.mem_map_of_mem hpx
+              rw [resolve_of_hasPh (hasPh_iff_mem_keys.mpr this)]; rfl
+            · exact resolve_of_compat hvr hvx hk px hpx
+          · simp only [hk]; exact hexp
+        · simp only [hm]
+          by_cases hk : (x.ph.all fun pr => (resolve r.ph pr.1).isSome) = true
+          · simp only [hk, if_true]
+            exact List.all_eq_true.mp hk px hpx
+          · simp only [hk]; exact hexp
+
+theorem amount_of_not_liveAt {w : World} {i : Nat} (h : w.liveAt i = false) (c : Nat) : w.amount i c = 0 := by
+  unfold World.liveAt at h
+  unfold World.amount
+  cases hs : w.strms[i]? with
+  | none => rfl
+  | some s =>
+    rw [hs] at h
+    simp only [Bool.not_eq_false'] at h
+    exact amount_of_isEmpty h c
+
+/-- **Mixing with the library default `energy_balance=True`** (exactly one non-empty inlet is copied with
+`copy_like`, otherwise the indexer mix runs): the receiver holds the sum of the inlets, chemical by chemical. -/
+theorem mixE_total {w w' : World} {r : Nat} {ins : List Nat} {eb : Bool} (h : mixE w r ins eb = .ok w')
+    (hv : ∀ s ∈ w.strms, ValidPh s) (c : Nat) :
+    w'.amount r c = rsum (ins.map (fun i => w.amount i c)) := by
+  unfold mixE at h
+  obtain ⟨r0, hr0, h⟩ := bind_ok.mp h
+  obtain ⟨xs, _, h⟩ := bind_ok.mp h
+  have hr := get?_ok.mp hr0
+  have hsum : rsum (ins.map (fun i => w.amount i c)) = rsum ((ins.filter w.liveAt).map (fun i => w.amount i c)) :=
+    (rsum_filter_of_zero ins w.liveAt (fun i => w.amount i c) (fun i _ hi => amount_of_not_liveAt hi c)).symm
+  split at h
+  · rename_i xi hlive
+    split at h
+    · exact mix_total h c
+    · split at h
+      · rename_i hxr
+        cases h
+        rw [hsum, hlive, hxr]; simp
+      · obtain ⟨x, hx, h⟩ := bind_ok.mp h
+        obtain ⟨r', hr', h⟩ := bind_ok.mp h
+        cases h
+        have hx' := get?_ok.mp hx
+        obtain ⟨hpkg, hk⟩ := copyLike_key (fun hs => (pkgOf_same (w := w) hs).symm) hr'
+          (hv r0 (List.mem_of_getElem? hr)) (hv x (List.mem_of_getElem? hx')) c
+        rw [amount_setStrm_same hr, pkgOf_eq_of_pkg hpkg, amount_eq_key, hk, hsum, hlive]
+        simp [amount_of_get hx', amount_eq_key]
+  · exact mix_total h c
+
+/-- `Stream.sum(streams, thermo=pkg)` with the library default `energy_balance=True` -/
+theorem sumE_total {w w' : World} {pkg : Nat} {ins : List Nat} {eb : Bool} (h : sumNewE w pkg ins eb = .ok w')
+    (hins : ∀ i ∈ ins, i < w.strms.length) (hv : ∀ s ∈ w.strms, ValidPh s) (c : Nat) :
+    w'.amount w.strms.length c = rsum (ins.map (fun i => w.amount i c)) := by
+  unfold sumNewE at h
+  have hv1 : ∀ s ∈ (w.strms ++ [{ pkg := pkg, multi := false, ph := [('l', vzero (w.pkgs.getD pkg []).length)] }]), ValidPh s := by
+    intro s hs
+    simp only [List.mem_append, List.mem_singleton] at hs
+    rcases hs with hs | rfl
+    · exact hv s hs
+    · intro pr hpr
+      simp only [List.mem_singleton] at hpr
+      subst hpr; rfl
+  rw [mixE_total h hv1 c]
+  apply rsum_map_congr
+  intro i hi
+  exact amount_append_old w _ (hins i hi) c
+
 /-! ### phase views as operands -/
 
 /-- what an operand holds of chemical `c` (a phase view: the row of its phase, read in the parent's package) -/
@@ -1286,6 +1837,50 @@ theorem bindAll_spec {w : World} (c : Nat) :
     simp only [List.map_cons, rsum_cons, hsum]
     rw [e2.amount hi c, ha, refAmount_ext hext hv.1 c]
 
+/-- the phase letter of a view operand is one of the five phases -/
+def refValidLetter : Ref → Bool
+  | .strm _ => true
+  | .view _ p => validPhase p
+
+theorem bind_valid {w w1 : World} {r : Ref} {i : Nat} (h : w.bind r = .ok (w1, i)) (hl : refValidLetter r = true)
+    (hv : ∀ s ∈ w.strms, ValidPh s) : ∀ s ∈ w1.strms, ValidPh s := by
+  cases r with
+  | strm i0 => simp only [World.bind] at h; cases h; exact hv
+  | view j p =>
+    simp only [World.bind] at h
+    obtain ⟨s, _, h⟩ := bind_ok.mp h
+    split at h
+    · split at h
+      · cases h
+      · cases h
+        intro t ht
+        simp only [List.mem_append, List.mem_singleton] at ht
+        rcases ht with ht | rfl
+        · exact hv t ht
+        · intro pr hpr
+          simp only [List.mem_singleton] at hpr
+          subst hpr
+          exact hl
+    · split at h
+      · cases h; exact hv
+      · cases h
+
+theorem bindAll_valid : ∀ (rs : List Ref) (w w1 : World) (is : List Nat), w.bindAll rs = .ok (w1, is) →
+    rs.all refValidLetter = true → (∀ s ∈ w.strms, ValidPh s) → ∀ s ∈ w1.strms, ValidPh s := by
+  intro rs
+  induction rs with
+  | nil => intro w w1 is h _ hv; simp only [World.bindAll] at h; cases h; exact hv
+  | cons r rs ih =>
+    intro w w1 is h hl hv
+    unfold World.bindAll at h
+    obtain ⟨⟨wa, i⟩, hb, h⟩ := bind_ok.mp h
+    simp only [] at h
+    obtain ⟨⟨wb, is'⟩, hbs, h⟩ := bind_ok.mp h
+    simp only [] at h
+    cases h
+    simp only [List.all_cons, Bool.and_eq_true] at hl
+    exact ih wa _ is' hbs hl.2 (bind_valid hb hl.1 hv)
+
 theorem amount_trim {w : World} {n i : Nat} (hi : i < n) (c : Nat) : (w.trim n).amount i c = w.amount i c := by
   unfold World.amount World.trim
   simp [List.getElem?_take, hi]; rfl
@@ -1308,19 +1903,20 @@ theorem sepR_total {w w' : World} {x : Nat} {y : Ref} (h : sepR w x y = .ok w') 
 
 /-- **Mixing with phase views among the inlets** (also views of the receiver itself): the receiver holds the
 sum of what the operands held. -/
-theorem mixR_total {w w' : World} {r : Nat} {ins : List Ref} (h : mixR w r ins = .ok w')
-    (hr : r < w.strms.length) (c : Nat) :
+theorem mixR_total {w w' : World} {r : Nat} {ins : List Ref} {eb : Bool} (h : mixR w r ins eb = .ok w')
+    (hr : r < w.strms.length) (hv : ∀ s ∈ w.strms, ValidPh s) (hl : ins.all refValidLetter = true) (c : Nat) :
     w'.amount r c = rsum (ins.map (fun x => refAmount w x c)) := by
   unfold mixR at h
   split at h
   · cases h
-  · rename_i hv
-    simp only [Bool.not_eq_true, Bool.not_eq_false'] at hv
+  · rename_i hvld
+    simp only [Bool.not_eq_true, Bool.not_eq_false'] at hvld
     obtain ⟨⟨w1, is⟩, hb, h⟩ := bind_ok.mp h
     simp only [] at h
     obtain ⟨w2, hm, h⟩ := bind_ok.mp h
     cases h
-    obtain ⟨_, hsum⟩ := bindAll_spec c ins w w1 is (Ext.refl w) hb (by simpa using hv)
-    rw [amount_trim hr, mix_total hm, hsum]
+    obtain ⟨hext, hsum⟩ := bindAll_spec c ins w w1 is (Ext.refl w) hb (by simpa using hvld)
+    have hv1 : ∀ s ∈ w1.strms, ValidPh s := bindAll_valid ins w w1 is hb hl hv
+    rw [amount_trim hr, mixE_total hm hv1, hsum]
 
 end ThermoVerif.FlowOps
